@@ -245,9 +245,9 @@ def step (cfg : Cfg) (env : Env) (s : St) : Ev → St × List Out
       let b := autoNext cfg env a.1 r res
       (b.1, .ret r res :: (a.2 ++ b.2))
   | .down =>
-    -- The command in flight never gets its answer: `_clean_up()` cancels it (InterestCanceled), or — when `run()`
-    -- raised and `_clean_up()` is skipped — it runs into its lifetime (InterestTimeout); either way the call returns
-    -- `False`.  If that call was the start-up task's, the task goes on to the next route, `express` raises
+    -- The command in flight never gets its answer: `_clean_up()` cancels it (InterestCanceled), or — appv2, when
+    -- `run()` raised: `_clean_up()` is skipped there; the legacy `main_loop` runs it on every path since fix c36f7e8 —
+    -- it runs into its lifetime (InterestTimeout); either way the call returns `False`.  If that call was the start-up task's, the task goes on to the next route, `express` raises
     -- NetworkError ("cannot send packet before connected") and the task dies: the rest of its walk is dropped.
     -- Calls that wait for the command lock at this moment (they would raise NetworkError one by one) are not modelled.
     if !s.queue.isEmpty then (s, [.unmodelled])
